@@ -21,6 +21,10 @@ Refuse(e) == IF e.raised = "" THEN <<C("must-raise", "an exception")>> ELSE <<>>
 \* fitting value of an assignment: an int fills the selection from its low bits; a list / Bits value has at most the selection's length
 AsgVal(o, n) == IF o.t = "i" THEN FromNat(o.v, n) ELSE Resize(o.v, n)      \* a shorter list / Bits value is zero-extended to the selection
 
+\* utils.operators.concat: left fold of //, the first piece in the low positions
+RECURSIVE ConcatList(_)
+ConcatList(ps) == IF Len(ps) = 1 THEN ps[1] ELSE Concat2(ConcatList(SubSeq(ps, 1, Len(ps) - 1)), ps[Len(ps)])
+
 \* expected outcome of a PURE operation e: [raise |-> BOOLEAN, val |-> value]
 R(v) == [raise |-> FALSE, val |-> v]
 X == [raise |-> TRUE, val |-> <<>>]
@@ -63,6 +67,7 @@ Pure(e) ==
     [] e.op = "get_int"    -> IF NormIdx(e.i, Len(e.a)) = -1 THEN X ELSE R(<<e.a[NormIdx(e.i, Len(e.a)) + 1]>>)
     [] e.op = "get_slice"  -> R(GetList(e.a, SliceRange(e.start, e.stop, e.step, Len(e.a))))
     [] e.op = "get_list"   -> R(GetList(e.a, e.idx))
+    [] e.op = "concat_list"-> IF e.parts = <<>> THEN X ELSE R(ConcatList(IF e.be THEN [i \in 1..Len(e.parts) |-> e.parts[Len(e.parts) + 1 - i]] ELSE e.parts))
 
 \* mutation of the object: new specified value, or "refused"
 Mutate(o, e) ==
@@ -72,7 +77,8 @@ Mutate(o, e) ==
     [] e.op = "set_size"  -> R(Resize(o, e.n))
     [] e.op = "zext_ip"   -> R(ZeroExtend(o, e.n))
     [] e.op = "sext_ip"   -> R(SignExtend(o, e.n))
-IsMut(e) == e.op \in {"set_int", "set_slice", "set_list", "set_size", "zext_ip", "sext_ip"}
+    [] e.op = "load"      -> IF LoadOk(e.s, e.order) THEN R(FromBytes(e.s, e.order, NONE)) ELSE X     \* the object is REPLACED by the loaded bytes
+IsMut(e) == e.op \in {"set_int", "set_slice", "set_list", "set_size", "zext_ip", "sext_ip", "load"}
 
 Judge(o, e) ==
   IF IsMut(e)
